@@ -111,6 +111,25 @@ theorem extent_pos {sp : Space} (h : Reachable sp) (hne : sp.placed ≠ [])
     obtain ⟨l, _, h1, h2, h3, h4⟩ := hs.inside hcell' a ha
     omega
 
+/-- a space of a class Altair supports (grids, `mesa.space.ContinuousSpace`) that holds an agent has width and height > 0 -/
+theorem min_pos_of_placed {sp : Space} (h : Reachable sp) (hsup : altairSupported sp.fam = true) (hne : sp.placed ≠ []) :
+    min sp.w sp.h ≠ 0 := by
+  have hw := reachable_wf h
+  have hs := reachable_sized h
+  obtain ⟨a, ha⟩ := List.exists_mem_of_ne_nil _ hne
+  by_cases hcell : sp.fam.cellular = true
+  · obtain ⟨l, _, hl⟩ := hw.located a ha
+    have hl := hl hcell
+    obtain ⟨extra, hc⟩ := hs.cells
+    have hgrid : initCells sp.fam sp.w sp.h extra = gridCells sp.w sp.h := by
+      cases hfam : sp.fam <;> simp [hfam, altairSupported, Family.cellular] at hsup hcell <;> rfl
+    rw [hc, hgrid] at hl
+    have := mem_gridCells hl
+    omega
+  · have hcell' : sp.fam.cellular = false := by simpa using hcell
+    obtain ⟨l, _, h1, h2, h3, h4⟩ := hs.inside hcell' a ha
+    omega
+
 theorem spread_pos_of_mem {xs : List Int} {a b : Int} (ha : a ∈ xs) (hb : b ∈ xs) (hab : a < b) : 0 < spread xs := by
   unfold spread
   cases h1 : minOf xs with
